@@ -50,7 +50,7 @@ theorem vstep_fwdAssign {β} {S} {h : Heap} {byMove : Bool} {sb si sn db di dn v
 /-- `merge`, given a specification of `merge_higher_levels` -/
 theorem merge_gen (P : Params) (hP : P.OK) (n0 : Nat) (s o : Sketch) (byMove : Bool) (coins : List Bool)
     (ids0 : List Nat)
-    (hml : ∀ b hA, s.items = some b → o.numLevels ≥ 2 → MHLSpec P n0 s o b byMove hA)
+    (hml : ∀ b h hA, MCtx P n0 ids0 s o b h → hA.next = n0 → o.numLevels ≥ 2 → MHLSpec P n0 s o b byMove hA)
     (h64 : o.numLevels ≥ 2 → s.n + o.n < 2 ^ 64) :
     TripleS n0 (foot (owned s ++ owned o) n0)
       (fun h => Usable P h s ∧ Usable P h o ∧ (∀ b, b ∈ owned s → b ∉ owned o) ∧ h.ids = ids0 ∧ h.next = n0 ∧
@@ -82,7 +82,8 @@ theorem merge_gen (P : Params) (hP : P.OK) (n0 : Nat) (s o : Sketch) (byMove : B
   · rw [if_pos hm]; exact SafeF.exc _
   rw [if_neg hm]
   obtain ⟨⟨w0, hw0⟩, ⟨w1, hw1⟩⟩ := uo.mm1 hon
-  have tail := fun hA amm => mergeTail_spec P hP n0 ids0 s o b h ctx byMove coins hon hA amm (hml b hA hb) h64
+  have tail := fun hA (amm : AfterMM h hA s o byMove) => mergeTail_spec P hP n0 ids0 s o b h ctx byMove coins hon hA amm
+    (hml b h hA ctx (by rw [amm.sb.next, hnx])) h64
   by_cases hsn : s.n = 0
   · rw [if_pos hsn]
     obtain ⟨r0, r1⟩ := us.mm0 hsn
@@ -168,6 +169,6 @@ theorem merge_contract_lvl1 (P : Params) (hP : P.OK) (n0 : Nat) (s o : Sketch) (
       (merge s o byMove coins)
       (fun r h' => Usable P h' r.1 ∧ Inv P h' o ∧ (byMove = false → Usable P h' o) ∧ (∀ b, b ∈ owned r.1 → b ∉ owned o) ∧
          Owns h' ids0 (owned s ++ owned o) (owned r.1 ++ owned o) n0) :=
-  merge_gen P hP n0 s o byMove coins ids0 (fun _ _ _ hge => by omega) (fun hge => by omega)
+  merge_gen P hP n0 s o byMove coins ids0 (fun _ _ _ _ _ hge => by omega) (fun hge => by omega)
 
 end DS.Life.Kll
